@@ -82,6 +82,10 @@ CHECKS = [
   "Generated batches of 120 concurrent instance timelines (HTTP-ephemeral / persistent, register offset, heartbeat period 0.5 s .. 5.2 s or none, optional stop and re-registration) in real time against a real server with health time-out 4 s, instance time-out 5 s, 2 s tick; all instance lists are sampled every ~400 ms for 28 s and every (timeline, sample) is judged with one-sided windows derived from the measured send times: present and healthy while heartbeats arrive within the time-out, unhealthy after health time-out + tick + slack, gone after instance time-out + 2 ticks + slack, persistent instances never expired.",
   "Real clock with one-sided windows (scheduling delay can only make the check more lenient). gRPC-owned instances are covered by C11/C12; take-over after a node failure is exercised by C15's kill schedules.",
   "property-based testing (proptest-generated timelines) with a timing-window oracle on a real server"),
+ chk("C15", "E3 real 3-node clusters on loopback", "exploration",
+  "Generated schedules (10..36 ops) on real 3-node clusters: HTTP register (weights 2..4) / deregister addressed to generated nodes over 3 services x 6 addresses, gRPC register / deregister of 6 further addresses through up to three held bi-stream connections attached to generated nodes, connection close, pauses, and (second class) kill -9 / restart of one node, with HTTP heartbeats kept going for the instances the model holds. Oracle: within 100 s after the last op all live nodes return the same set (address, healthy, enabled, weight) for every service, and that set is exactly the surviving registrations: instances of connections attached to a killed node, of closed connections and deregistered ones are gone, everything else present and healthy (weights are compared with the model only in schedules without a kill). Saved counterexamples are re-run first.",
+  "Message schedules between the nodes are sampled by real execution, not controlled ('delayed batch overtaking a remove' is reachable only by luck). HTTP deregistration is only issued for addresses that are not connection-owned; each gRPC address is written by one connection at a time. One node down at a time.",
+  "property-based testing (proptest-generated client/fault schedules) with a reference model + cross-node agreement oracle on real clusters"),
  chk("C16", "E1 route discovery + E3 real server (HTTP raw client, tonic gRPC client)", "exploration",
   "Routes are discovered at run time from the real app_config ResourceMap (self-tested on sentinel routes). Complete matrix: in-scope routes x 6 methods x token carriers x token values (absent, empty, garbage, never issued, prefix of a valid one, expired, valid) on a real server with auth on; every gRPC request type found in the handler module plus near misses with/without session and cluster token; plus tens of thousands of generated path spellings (trailing/doubled slash, case, percent-encoding incl. '/', ';param', '/./', '/zz/..', static suffixes). Oracle: no valid token and a router path under /nacos/ or /rnacos/v1/ (minus the statement's exemptions) => the auth refusal, or no handler exists for the same request with a valid token; writes leave data unchanged; a valid token is never refused.",
   "Exemptions read literally from the statement. Valid+invalid tokens in two carriers of one request are not generated. With no cluster token configured cluster requests are not asserted (the statement conditions on 'when one is configured').",
@@ -99,13 +103,13 @@ ENGINES = [
   "kind_free_text": "LD_PRELOAD journal of file mutations in a recorder child; parent materialises every journal prefix and runs the real recovery code on it"},
  {"name": "E2", "path": "harness/src/node.rs", "serves_properties": ["C01", "C07", "C19"],
   "kind_free_text": "scripted full node (starter::config_factory + build_share_data) in a child process per phase: leader path through the real Raft, follower path through RaftStorage calls, restart = new process"},
- {"name": "E3", "path": "harness/src/cluster.rs, harness/src/c18/srv.rs", "serves_properties": ["C06", "C08", "C13", "C16", "C17", "C18"],
+ {"name": "E3", "path": "harness/src/cluster.rs, harness/src/c18/srv.rs", "serves_properties": ["C06", "C08", "C13", "C15", "C16", "C17", "C18"],
   "kind_free_text": "real rnacos-real processes (the shipped main.rs built from /repo's working tree) on loopback with HTTP clients; nemesis by pid (kill -9, restart)"},
 ]
 
 def main():
     claimed = {c["property_id"] for c in CHECKS}
-    na = [{"property_id": p["id"], "reason": "check not built yet (work in progress; see DESIGN.md section 6 build order)"}
+    na = [{"property_id": p["id"], "reason": "no check registered (see DESIGN.md)"}
           for p in PROPS if p["id"] not in claimed]
     try:
         commits = subprocess.check_output(["git", "-C", "/repo", "log", "--format=%h %s", "41a5f6e..HEAD"], text=True).strip().splitlines()
